@@ -82,7 +82,7 @@ func TestP1ReadFaults(t *testing.T) {
 	rec := ev.New("C13", "readfaults")
 	defer rec.Finish(t)
 	rec.Rule("for each generated input (programs incl. eexec sections, single-CMap files, Type 1 fonts in the four containers from both writers, AFM files, PFB streams; up to 8 KB): a read fault with a distinct sentinel error at EVERY byte offset 0..len, with the error returned alone or together with the last bytes before the offset, persistent (every later read fails too; both forms) or transient (error returned alone once, reading would continue normally afterwards); for Type 1 and CMap files additionally a truncation at EVERY offset. Oracle: if the fault was delivered to the library (the wrapper records it) the call must return a non-nil error and must not panic; a truncated file must give an error or the result of the complete file. Non-trivial: fault delivered and strictly inside the data; distinct by (input, offset, variant).")
-	ev.SetupRapid(48, 1200)
+	ev.SetupRapid(60, 1600)
 	rapid.Check(t, func(t *rapid.T) {
 		target, data, label, trunc := genReadInput(t)
 		if len(data) > 8192 {
@@ -167,7 +167,7 @@ func TestP2WriteFaults(t *testing.T) {
 	rec := ev.New("C13", "writefaults")
 	defer rec.Finish(t)
 	rec.Rule("for each generated font (x 4 formats and WritePDF) and metrics value (Metrics.Write): a write fault at EVERY write-call index 0..calls and at EVERY byte offset 0..bytes (short write + error), each as a persistent fault (all later calls fail too) and as a transient one (later calls succeed), counted on a fault-free dry run first. Oracle: a delivered fault makes the writer return a non-nil error, without panic. Non-trivial: fault delivered; distinct by (value, form, point).")
-	ev.SetupRapid(36, 900)
+	ev.SetupRapid(48, 1200)
 	rapid.Check(t, func(t *rapid.T) {
 		var base writeCase
 		if rapid.IntRange(0, 3).Draw(t, "kind") == 0 {
